@@ -24,6 +24,19 @@ def comp_misc(script):
     c2 = Composition(); t3 = Track(); t3 + "C"; c2.add_track(Track()); c2.add_track(t3)
     return [len(c), len(c[0]), len(c[1]), c[1] is t2, t2 == t3, t1 == Track(), len(t2[0]), t2[0] == t3[0]]
 
+def comp_setitem(n, idx):
+    """a composition of n tracks (track i holds i+1 quarter notes), then comp[idx] = a new track holding a half note"""
+    c = Composition()
+    for i in range(n):
+        t = Track()
+        for _ in range(i + 1):
+            t.add_notes("C", 4)
+        c.add_track(t)
+    new = Track(); new.add_notes("G", 2)
+    c[idx] = new
+    sizes = [[len(b) for b in t.bars] + [t.bars[0].bar[0][1] if t.bars and t.bars[0].bar else 0] for t in c.tracks]
+    return [len(c), sizes, c[idx] is new]
+
 def track_eq(ops_a, ops_b):
     """two tracks built by the two histories: ==, == the other way round, != ; and the same for compositions holding them"""
     def build(ops):
@@ -51,8 +64,8 @@ def comp_eq(specs_a, specs_b):
     a, b = build(specs_a), build(specs_b)
     return [a == b, b == a, a != b]
 
-IMPL = {"comp.eq": comp_eq, "track.run": machines.run_track, "comp.run": machines.run_comp, "comp.two": machines.run_comps, "comp.misc": comp_misc, "track.eq": track_eq}
-NO_MODEL = {"comp.misc", "track.eq", "comp.two", "comp.eq"}
+IMPL = {"comp.eq": comp_eq, "track.run": machines.run_track, "comp.run": machines.run_comp, "comp.two": machines.run_comps, "comp.misc": comp_misc, "track.eq": track_eq, "comp.setitem": comp_setitem}
+NO_MODEL = {"comp.misc", "track.eq", "comp.two", "comp.eq", "comp.setitem"}
 def has_model(c):
     return c["fn"] not in NO_MODEL
 
@@ -177,6 +190,9 @@ def cases(tier, rng):
           ["select", [1, 0]], ["add_note", C4], ["select", [0, 1]], ["add_note", E3]]
     yield Case("comp.run", [sc], "composition/one-track-refuses", model=False, kind=("comp",))
     yield Case("comp.misc", [[]], "composition/misc", model=False, kind=("misc",))
+    for n in (1, 2, 3, 4):
+        for idx in range(-n, n):
+            yield Case("comp.setitem", [n, idx], "composition/setitem", model=False, kind=("setitem",))
     # a Bar handed to a composition: appended as a bar to exactly the selected tracks
     for sel in ([0, 1], [1], [0]):
         # (with two tracks selected both receive THE SAME Bar object - the caller's choice - so nothing is added after it there)
@@ -236,6 +252,8 @@ def check_track(c, obs):
                     if prev:
                         if bars[-1][5] != prev[-1][5] or bars[-1][6] != prev[-1][6]:
                             return "a new bar does not inherit key and meter of its predecessor", {"step": i}
+                        if bars[-1][1] != prev[-1][1]:
+                            return "a new bar shows the inherited meter but not its length (%s, predecessor %s)" % (bars[-1][1], prev[-1][1]), {"step": i}
                         if not prev[-1][2]:
                             return "a new bar was opened although the last one was not full", {"step": i}
             else:
@@ -263,6 +281,13 @@ def check_track(c, obs):
 
 def oracle(c, obs):
     kind = c["kind"]
+    if c["fn"] == "comp.setitem":
+        n, idx = c["args"]
+        if isinstance(obs, Err):
+            return "comp[%d] = track raised %s on a composition of %d tracks" % (idx, obs.name, n)
+        want = [[i + 1, 4] for i in range(n)]
+        want[idx % n] = [1, 2]
+        return None if obs == [n, want, True] else "after comp[%d] = track the composition of %d tracks is %s, expected %s" % (idx, n, obs, [n, want, True])
     if isinstance(obs, Err):
         return "raised %s" % obs.name
     if kind[0] == "run":
